@@ -7,7 +7,7 @@
    * `Gen_C19.<Target>.term(s)`: regenerated from /repo/neurodiffeq/networks.py on every run.
    Modelled, not verified: nn.Linear / nn.Sequential / element-wise tensor ops act row by row
    (the hypotheses of the row-wise theorems). *)
-From Coq Require Import Reals List.
+From Coq Require Import Reals List ZArith.
 From ND.lib Require Import Expr.
 From ND.model Require Import Networks.
 From ND.gen Require Import Gen_C19.
@@ -48,6 +48,18 @@ Proof. exact fcnn_legacy_both. Qed.
 Theorem C19_fcnn_legacy_ignored : forall (n_in n_out : nat) (nhu nhl : option nat) (hid : list nat),
   fcnn_init n_in n_out nhu nhl (Some hid) = fcnn_layers n_in n_out hid.
 Proof. exact fcnn_legacy_ignored. Qed.
+
+(* ---- an independent module per entry: no module object (in particular no activation instance) appears
+   twice in the Sequential, for every layer list; the identity pattern pyfront reads from the
+   constructor source (one object per nn.Linear(...) / actv() call) is the model's 0, 1, 2, ... *)
+Theorem C19_module_ids_nodup : forall ls : list layer, NoDup (module_ids ls) /\ length (module_ids ls) = length ls.
+Proof. exact (fun ls => conj (module_ids_nodup ls) (module_ids_length ls)). Qed.
+
+Theorem C19_module_ids_generated :
+  FCNN_ids_h3.terms = map (fun k => ECst (Z.of_nat k)) (module_ids (fcnn_layers 2 3 [4; 5; 6]%nat))
+  /\ FCNN_ids_h0.terms = map (fun k => ECst (Z.of_nat k)) (module_ids (fcnn_layers 2 3 []))
+  /\ Resnet_ids_h2.terms = map (fun k => ECst (Z.of_nat k)) (module_ids (fst (resnet_init 2 3 None None (Some [4; 5]%nat)))).
+Proof. exact module_ids_generated. Qed.
 
 (* ---- residual variant: the same FCNN plus a bias-free Linear(n_in, n_out) skip *)
 Theorem C19_resnet_spec : forall (n_in n_out : nat) (hid : list nat),
